@@ -403,3 +403,48 @@ pub fn run_pruned(built: &Built, witness: WitnessValues, env: &Env) -> RunOutcom
     };
     decode_and_exec(p, w, built.cmr, env)
 }
+
+/// Witness nodes whose principal type (as inferred by simplicity-lang alone from the encoded commitment)
+/// differs from the type simfony assigned at compile time: "under-constrained" witnesses.
+/// Returns (number of witness nodes, number under-constrained); None when the commitment cannot be re-read.
+pub fn under_constrained_witnesses(compiled: &CompiledProgram) -> Option<(usize, usize)> {
+    use simplicity::dag::{DagLike, InternalSharing};
+    use simplicity::node::Inner;
+    use simplicity::CommitNode;
+    let commit = compiled.commit();
+    let bytes = commit.encode_to_vec();
+    let decoded = match CommitNode::<Elements>::decode(BitIter::from(bytes.into_iter())) {
+        Ok(d) => d,
+        Err(e) => {
+            if std::env::var("VERIF_DEBUG").is_ok() {
+                eprintln!("commit decode error: {e}");
+            }
+            return None;
+        }
+    };
+    let declared: Vec<simplicity::Tmr> = commit
+        .as_ref()
+        .post_order_iter::<InternalSharing>()
+        .filter(|i| matches!(i.node.inner(), Inner::Witness(_)))
+        .map(|i| i.node.arrow().target.tmr())
+        .collect();
+    let principal: Vec<simplicity::Tmr> = decoded
+        .as_ref()
+        .post_order_iter::<InternalSharing>()
+        .filter(|i| matches!(i.node.inner(), Inner::Witness(_)))
+        .map(|i| i.node.arrow().target.tmr())
+        .collect();
+    if std::env::var("VERIF_DEBUG").is_ok() {
+        for i in commit.as_ref().post_order_iter::<InternalSharing>().filter(|i| matches!(i.node.inner(), Inner::Witness(_))) {
+            eprintln!("compile-time witness type: {}", i.node.arrow().target);
+        }
+        for i in decoded.as_ref().post_order_iter::<InternalSharing>().filter(|i| matches!(i.node.inner(), Inner::Witness(_))) {
+            eprintln!("principal witness type: {}", i.node.arrow().target);
+        }
+    }
+    if declared.len() != principal.len() {
+        return Some((declared.len(), declared.len().max(principal.len())));
+    }
+    let n = declared.iter().zip(&principal).filter(|(a, b)| a != b).count();
+    Some((declared.len(), n))
+}
